@@ -203,6 +203,23 @@ def equal(got, want):
     return res
 
 
+REVVAR = ("revvar", )  # the family element at the mirrored position (reversed(...)) -- differs from VAR unless the fold is symmetric
+
+
+def _mentions(t, x):
+    if t == x:
+        return True
+    return isinstance(t, tuple) and any(_mentions(y, x) for y in t)
+
+
+def _subst(t, x, y):
+    if t == x:
+        return y
+    if isinstance(t, tuple):
+        return tuple(_subst(z, x, y) for z in t)
+    return t
+
+
 class ScalarEval(AbsInt):
     def unknown(self, why=""):
         return ("opaque", why)
@@ -347,7 +364,13 @@ class ScalarEval(AbsInt):
         if name == "sum" and args:
             v = args[0]
             if v[0] == "famlist":
-                return ("fsum", v[1])
+                body = v[1]
+                if _mentions(body, REVVAR) and not _mentions(body, VAR):
+                    body = _subst(body, REVVAR, VAR)  # a commutative fold over the mirrored list is the fold over the list
+                return ("fsum", body)
+        if name == "reversed" and len(args) == 1 and args[0][0] == "famlist" and len(args[0]) == 2 and not _mentions(args[0][1], REVVAR):
+            # the list read from the other end: element i is the part at the mirrored position n-1-i
+            return ("famlist", _subst(args[0][1], VAR, REVVAR))
         if name == "zip":
             if len(node.args) == 1 and isinstance(node.args[0], ast.Starred):
                 v = args[0]
